@@ -15,7 +15,7 @@ RULE = ("after any err edge: Yerr exactly once, then END; no W/R/Wack in phases 
         "zvt_parse's Err on its Break edge.")
 
 
-def run(ctx, chk):
+def _run_own(ctx, chk):
     rules_c05.run(ctx, chk, prop="C06")
     io_rules(ctx, chk)
     # a connection that ends mid-exchange must surface as an error of read_packet: the source is
@@ -108,3 +108,15 @@ def _helper_discipline(b, eg):
             if not tested:
                 bad.append("outcome of %s(%s) is never examined" % (ev[1], ev[2]))
     return bad
+
+
+def run(ctx, chk):
+    _run_own(ctx, chk)
+    # "a malformed body ... is a failure of the exchange": a reply whose tagged field is cut short must fail to parse. The
+    # generated decoders read a tagged field through deserialize_tagged(.., Some(tag)) - with `None` an optional field
+    # swallows its own decoding error (C13-a/dispatch, C13-a/tag-source)
+    import rules_c13
+    from report import Sub
+    sub = Sub(chk, "C06/parse", lambda r: r in ("C13-a/dispatch", "C13-a/tag-source", "C13-a/arm-tag"))
+    rules_c13.run(ctx, sub)
+    chk.floor("tagged-field dispatch obligations (shared with C13-a)", sub.count, 30)
